@@ -252,19 +252,28 @@ def h_arithmetic(c1: int, c2: int, dist: bool) -> bool:
     return rt.verdict(_check(g, freq, words, counts, dist, 1.0, 'n'))
 
 
-def h_load(o1: int, o2: int, r1: bool, r2: bool, p2: bool) -> bool:
+WEIGHT_TEXTS = ['5', '7.25', '1e-05', '.5', '2.5e+3', '0.0']     # what repr(float) / '%g' can write
+
+
+def h_load(o1: int, o2: int, r1: bool, r2: bool, p2: bool, kw1: int, kw2: int) -> bool:
     """
-    pre: 0 <= o1 <= 2 and 0 <= o2 <= 2
+    pre: 0 <= o1 <= 2 and 0 <= o2 <= 2 and 0 <= kw1 < 6 and 0 <= kw2 < 6
+    pre: rt.THOROUGH or kw2 == (kw1 + 1) % 6
     post: _
     """
-    w1, w2 = 5, 7
+    w1, w2 = WEIGHT_TEXTS[0], WEIGHT_TEXTS[0]
+    for n in range(6):
+        if kw1 == n:
+            w1 = WEIGHT_TEXTS[n]
+        if kw2 == n:
+            w2 = WEIGHT_TEXTS[n]
     # a WordNet::Similarity weights file with two lines whose offset, weight and ROOT flag
     # are symbolic; offsets index the nodes
     g = G.Graph(3, [[False, True, False], [False, False, True], [False, False, False]],
                 pos=['n', 'n', 'v'])
     offs = ['0', '1', '2']
-    l1 = offs[[i for i in range(3) if i == o1][0]] + 'n ' + str(w1) + (' ROOT' if r1 else '')
-    l2 = offs[[i for i in range(3) if i == o2][0]] + ('v' if p2 else 'n') + ' ' + str(w2) + \
+    l1 = offs[[i for i in range(3) if i == o1][0]] + 'n ' + w1 + (' ROOT' if r1 else '')
+    l2 = offs[[i for i in range(3) if i == o2][0]] + ('v' if p2 else 'n') + ' ' + w2 + \
         (' ROOT' if r2 else '')
     _FakePath.LINES = ['wnver::x\n', l1 + '\n', l2 + '\n']
     IC.Path = _FakePath
@@ -313,6 +322,7 @@ OBLIGATIONS = [
        canary=[('root-flag', 0)], functions=['wn.ic.load', 'wn.ic._parse_ic_file',
                                              'wn.ic._initialize'],
        stubs=['pathlib.Path / file object: a fake file of three lines'],
-       symbolic='offset and ROOT flag of two lines, pos of the second',
+       symbolic='offset, ROOT flag and weight text (from ' + repr(WEIGHT_TEXTS) + ': integer, '
+                'decimal, exponent, no leading digit) of two lines, pos of the second',
        bounds='header + 2 lines; 3-synset wordnet'),
 ]
